@@ -7,11 +7,19 @@ Mirrors:
 * `laythe_vm/src/compiler/resolver.rs`: `declare_module_scoped` (the module's existing symbols are
   re-declared, in slot order, as `AlreadyInitialized`; then the entry's own module-level
   declarations; a clash is the "already declared" error), `resolve_variable` (unknown names must be
-  exported by the global module, and are then added as `GlobalInitialized`);
+  exported by the global module, and are then added as `GlobalInitialized`), `resolve_global` (the
+  implicit superclass `Object` of a class declared without a parent is added as a global only if
+  no open scope — the module table with the re-declared and the entry's own symbols included —
+  holds that name);
 * `laythe_vm/src/compiler/mod.rs`: `begin_module_scope` (`stuff` gives the existing symbols the slots
   `0..k`, `declare_module_variable` gives new declarations, then newly used globals, the following
   slots and emits `DeclareModSym`), `with_cache_id_emitter` (the emitter the compile numbers its
-  inline-cache sites with is supplied by the caller);
+  inline-cache sites with is supplied by the caller), `class` → `global_get` / `is_global` (the
+  implicit superclass is `GetModSym(slot of Object)` only while the module table's `Object` is in
+  state `GlobalInitialized` — it became a module symbol in *this* entry, as a global — and no local
+  of that name is in scope; otherwise `LoadGlobal("Object")`, which touches no module symbol: the
+  case of every entry after the one that brought `Object` in (`AlreadyInitialized`), and of a
+  session that declares its own `Object`);
 * `laythe_vm/src/byte_code.rs`: `op_property_slot` / `op_invoke_slot` (ids are handed out in
   encoding order: every function when it is finished, the script last);
 * `laythe_vm/src/vm/source_loader.rs`: `compile` (a module that already has an inline cache — the
@@ -37,6 +45,8 @@ inductive Op
   | set (name : String)      -- SetModSym
   | prop                     -- an instruction followed by a PropertySlot
   | invoke                   -- an instruction followed by an InvokeSlot
+  | super                    -- the implicit superclass of a class declared without a parent, not under a
+                             -- local called `Object` (`global_get`): GetModSym or LoadGlobal, see `superSlot`
   deriving DecidableEq, Repr, Inhabited
 
 /-- the same after name resolution and cache-id assignment -/
@@ -68,7 +78,8 @@ structure Entry where
   compilerOk : Bool := true
   /-- module-level declarations (`let` / `fn` / `class` names) in source order -/
   decls : List String
-  /-- every non-local name referenced, in source order (functions' bodies included) -/
+  /-- every non-local name referenced, in source order (functions' bodies included); a class
+  declared without a parent (not under a local called `Object`) references `Object` -/
   refs : List String
   /-- functions and methods in the order they are finished (= encoded) -/
   funs : List FunDef
@@ -119,19 +130,32 @@ def uniq : List String → List String → List String
   | seen, x :: rest => if x ∈ seen then uniq seen rest else x :: uniq (x :: seen) rest
 
 /-- resolve names against the slot table and hand out cache ids starting at `(np, ni)` -/
-def number (tbl : List String) : Nat → Nat → List Op → List ROp × Nat × Nat
+def number (tbl : List String) (sup : Option Nat) : Nat → Nat → List Op → List ROp × Nat × Nat
   | np, ni, [] => ([], np, ni)
-  | np, ni, .get n :: rest => let r := number tbl np ni rest; (.get (idxOf n tbl) :: r.1, r.2)
-  | np, ni, .set n :: rest => let r := number tbl np ni rest; (.set (idxOf n tbl) :: r.1, r.2)
-  | np, ni, .prop :: rest => let r := number tbl (np + 1) ni rest; (.prop np :: r.1, r.2)
-  | np, ni, .invoke :: rest => let r := number tbl np (ni + 1) rest; (.invoke ni :: r.1, r.2)
+  | np, ni, .get n :: rest => let r := number tbl sup np ni rest; (.get (idxOf n tbl) :: r.1, r.2)
+  | np, ni, .set n :: rest => let r := number tbl sup np ni rest; (.set (idxOf n tbl) :: r.1, r.2)
+  | np, ni, .prop :: rest => let r := number tbl sup (np + 1) ni rest; (.prop np :: r.1, r.2)
+  | np, ni, .invoke :: rest => let r := number tbl sup np (ni + 1) rest; (.invoke ni :: r.1, r.2)
+  | np, ni, .super :: rest =>
+    let r := number tbl sup np ni rest
+    match sup with
+    | some slot => (.get slot :: r.1, r.2)     -- `variable_get`: GetModSym
+    | none => r                                 -- LoadGlobal: no module symbol involved
 
-def numberFuns (tbl : List String) : Nat → Nat → List FunDef → List RFun × Nat × Nat
+def numberFuns (tbl : List String) (sup : Option Nat) : Nat → Nat → List FunDef → List RFun × Nat × Nat
   | np, ni, [] => ([], np, ni)
   | np, ni, f :: rest =>
-    let r := number tbl np ni f.ops
-    let r2 := numberFuns tbl r.2.1 r.2.2 rest
+    let r := number tbl sup np ni f.ops
+    let r2 := numberFuns tbl sup r.2.1 r.2.2 rest
     ({ name := f.name, ops := r.1 } :: r2.1, r2.2)
+
+/-- `Compiler::is_global("Object")` for the implicit superclass of the entry's class declarations:
+the module slot it is read from, if the module's `Object` is the copy of the global that *this*
+entry adds (`GlobalInitialized`).  A name the module already has (from any earlier entry — it is
+re-declared as `AlreadyInitialized`, whether it was a global or the user's own) or that the entry
+declares itself is not: the class is then loaded from the global module directly. -/
+def superSlot (symbols decls table : List String) : Option Nat :=
+  if "Object" ∈ symbols || "Object" ∈ decls then none else some (idxOf "Object" table)
 
 structure Compiled where
   table : List String          -- module slot table the entry was compiled against
@@ -158,11 +182,12 @@ def compileAt (np0 ni0 : Nat) (globals : List String) (st : St) (e : Entry) : Ex
         else
         let newGlobals := uniq (st.symbols ++ e.decls) (e.refs.filter (fun r => !(r ∈ st.symbols || r ∈ e.decls)))
         let table := st.symbols ++ e.decls ++ newGlobals
-        let fs := numberFuns table np0 ni0 e.funs
+        let sup := superSlot st.symbols e.decls table
+        let fs := numberFuns table sup np0 ni0 e.funs
         let prologue : List ROp :=
           (e.decls.map fun d => ROp.decl (idxOf d table)) ++
           (newGlobals.flatMap fun gname => [ROp.decl (idxOf gname table), ROp.set (idxOf gname table)])
-        let sc := number table fs.2.1 fs.2.2 e.script
+        let sc := number table sup fs.2.1 fs.2.2 e.script
         .ok { table, funs := fs.1, script := prologue ++ sc.1, propCount := sc.2.1, invCount := sc.2.2 }
 
 /-- The code: the entry's cache ids continue after the module's current vector lengths
